@@ -84,10 +84,10 @@ BPresLoop(C, st, sls, i, ret) ==
        ELSE BPresLoop(C, st, sls, i + 1, ret)
 BKept(C, st, f) ==
   IF st.kc[f] # 2 THEN [st |-> st, ret |-> st.kc[f] = 1]
-  ELSE LET cs  == InFile(C.I, f, {"const"})
-           tds == InFile(C.I, f, {"typedef"})
+  ELSE LET cs  == C.I.byfile[f].consts
+           tds == C.I.byfile[f].typedefs
            st2 == BDefTypes(C, BDefTypes(C, st, cs, 1), tds, 1)
-           sls == InFile(C.I, f, {"struct"}) \o InFile(C.I, f, {"union"}) \o InFile(C.I, f, {"exception"})
+           sls == C.I.byfile[f].sls
            r   == IF C.force THEN [st |-> st2, ret |-> Len(cs) + Len(tds) > 0]
                   ELSE BPresLoop(C, st2, sls, 1, Len(cs) + Len(tds) > 0)
        IN [st |-> [r.st EXCEPT !.kc[f] = IF r.ret THEN 1 ELSE 0], ret |-> r.ret]
@@ -117,7 +117,7 @@ BTrace(C, st, fathers, s) ==
                  IN [st  |-> IF back.ret THEN back.st ELSE [back.st EXCEPT !.es = @ \cup {s}],  \* markServiceExtends
                      ret |-> back.ret \/ r1.ret]
   IN IF r2.ret
-     THEN [st  |-> IF b # 0 /\ FileOf(C.I, b) # FileOf(C.I, s)
+     THEN [st  |-> IF b # 0 /\ FileOf(C.I, b) # FileOf(C.I, s) /\ ("extinc" \in Fixes => s \notin r2.st.es)
                    THEN MarkInc(MarkDef(r2.st, s), FileOf(C.I, s), FileOf(C.I, b)) ELSE MarkDef(r2.st, s),
            ret |-> TRUE]
      ELSE r2
@@ -146,7 +146,7 @@ BSvc(C, st, s) ==
 RECURSIVE BSvcs(_, _, _, _)
 BSvcs(C, st, ss, i) == IF i > Len(ss) THEN st ELSE BSvcs(C, BSvc(C, st, ss[i]), ss, i + 1)
 \* markAST
-BMarks(C) == BSvcs(C, BPre(C, St0(C.I), 1).st, InFile(C.I, 1, {"service"}), 1)
+BMarks(C) == BSvcs(C, BPre(C, St0(C.I), 1).st, C.I.byfile[1].svcs, 1)
 
 \* traversal + the state the re-resolution leaves
 BSweep(C, st) ==
